@@ -56,7 +56,11 @@ def _differential(seed, thorough=False):
     from harness.differential import check_differential
 
     v, cases = check_differential(seed, n_cases=400 if thorough else 60)
-    return dict(cases=cases, violations=v, known={}, bound=f"{cases} concrete runs (seed {seed}): the mechanically rewritten bodies of 17 functions under contract (loop-cut scaffolding in place, real module namespace, builtin overrides) against the untouched functions on random graphs / node tables / results maps")
+    from harness.differential import SKIPPED
+
+    # a divergence is a defect of the CHECKER for the current shape of the code (assumption "CPython executes the rewritten body as
+    # the original" refuted), not a violation of the property: check_property turns it into *undecided* functions
+    return dict(cases=cases, violations=[], divergences=v, skipped=list(SKIPPED), known={}, bound=f"{cases} concrete runs (seed {seed}): the mechanically rewritten bodies of 17 functions under contract (loop-cut scaffolding in place, real module namespace, builtin overrides) against the untouched functions on random graphs / node tables / results maps")
 
 
 BOUNDED = {
